@@ -134,6 +134,18 @@ def corpus():
               [{'type': 'month', 'text': '2025-01', 'mode': 'exclude'}, {'type': 'tag', 'text': 'food', 'mode': 'include'}],
               [{'type': 'month', 'text': '2025-01', 'mode': 'include'}, {'type': 'month', 'text': '2025-03', 'mode': 'include'}], []]
     out.append({'txns': txns, 'homogeneous': True, 'filters': flips})
+    # free-text filters over descriptions and extra fields (string- and list-valued), with quotes / backslashes / separators
+    txns = [{'a': 21119, 'tags': [], 'm': 'Shop', 'c': 'Shopping', 's': 'Tech', 'd': '2025-01-05', 'desc': 'ONLINE ORDER 1',
+             'extra': {'items': ['Dell 27" Monitor', 'HDMI Cable'], 'note': 'gift "wrapped"'}},
+            {'a': 6400, 'tags': [], 'm': 'Shop', 'c': 'Shopping', 's': 'Tech', 'd': '2025-01-09', 'desc': 'ONLINE ORDER 2',
+             'extra': {'items': ['USB\\C hub', 'a,b'], 'note': 'plain'}},
+            {'a': 3200, 'tags': [], 'm': 'Cafe', 'c': 'Food', 's': 'Out', 'd': '2025-02-07', 'desc': 'CAFE 27" SCREEN BAR'},
+            {'a': -640, 'tags': [], 'm': 'Cafe', 'c': 'Food', 's': 'Out', 'd': '2025-02-08', 'desc': 'CAFE REFUND', 'extra': {'n': 27, 'ok': True}}]
+    tf = []
+    for x in ['27" monitor', '27"', 'hdmi', '","', 'gift "w', 'usb\\c', 'a,b', '[', '27', 'true', 'order', 'nomatch', '"']:
+        tf += [[{'type': 'text', 'text': x, 'mode': 'include'}], [{'type': 'text', 'text': x, 'mode': 'exclude'}]]
+    tf.append([{'type': 'text', 'text': '27"', 'mode': 'exclude'}, {'type': 'category', 'text': 'shopping', 'mode': 'include'}])
+    out.append({'txns': txns, 'homogeneous': True, 'filters': [[]] + tf})
     # consecutive calls on special tags in one session, repeated tags, all six buckets at once
     txns = [{'a': -(i + 1) * 640, 'tags': [w], 'm': m, 'c': 'Money', 's': 'Moves', 'd': f'2025-0{1 + i % 3}-1{i}'}
             for i, (w, m) in enumerate([('income', 'Job'), ('income', 'Job'), ('transfer', 'Bank'), ('Transfer', 'Bank'),
@@ -276,6 +288,14 @@ def expected_visible(case, flt):
             return t['c'].lower() == x
         if f['type'] == 'merchant':
             return t['m'].lower() == x
+        if f['type'] == 'text':
+            if x in (t.get('desc') or t['m'].upper()).lower():
+                return True
+            for v in (t.get('extra') or {}).values():
+                items = v if isinstance(v, list) else [v]
+                if any(x in str(i).lower() for i in items):
+                    return True
+            return False
         return None
     out = []
     for t in case['txns']:
